@@ -97,9 +97,11 @@ def HCfg.init (c : HCfg) : Hist :=
     (the last assignment wins; 0 when no bit is set) -/
 def hibit (sw x : Nat) : Nat := (List.range sw).foldl (fun acc i => if x.testBit i then i else acc) 0
 
-/-- metrics.py:474-482 : `should_incr` of bucket `i` for sample `x` -/
+/-- metrics.py:474-485 : `should_incr` of bucket `i` for sample `x`
+    (a single bucket has the range `[0, +inf)` and counts every sample) -/
 def HCfg.shouldIncr (c : HCfg) (i x : Nat) : Bool :=
-  if i = 0 then x == 0
+  if c.n = 1 then true
+  else if i = 0 then x == 0
   else if i = c.n - 1 then decide (hibit c.sw x ≥ i - 1) && x != 0
   else hibit c.sw x == i - 1 && x != 0
 
